@@ -1221,8 +1221,14 @@ int main(int argc, char **argv)
 			/* print ctxspec indent   |  optprint ctxspec optpath indent */
 			cfg_t *c = resolve_ctx(ARG(1));
 			char *buf = NULL, *js; size_t bl = 0, jl;
-			FILE *mf = open_memstream(&buf, &bl), *jf;
+			FILE *mf, *jf;
 			int r;
+			if (!c) {
+				emit_int(t[0], -2);	/* no such context (e.g. cfg_init failed) */
+				free(line);
+				continue;
+			}
+			mf = open_memstream(&buf, &bl);
 			if (t[0][0] == 'p') {
 				int indent = nt > 2 ? atoi(t[2]) : 0;
 				r = indent ? cfg_print_indent(c, mf, indent) : cfg_print(c, mf);
